@@ -241,6 +241,26 @@ def r2_generator_reset(chk):
         resets, bad_resets = {}, {}
         for owner, fn in chain:
             line = first_dispatch_line(fn)
+            # idiom: `for c in (self._a, self._b): c.clear()`
+            for st in fn.body:
+                if isinstance(st, ast.For) and isinstance(st.iter, (ast.Tuple, ast.List)) and \
+                        isinstance(st.target, ast.Name) and (line is None or st.lineno < line) and \
+                        len(st.body) == 1 and norm(st.body[0]) == '%s.clear()' % st.target.id:
+                    for e in st.iter.elts:
+                        if common.is_self_attr(e):
+                            resets.setdefault(e.attr, []).append(('clear', owner, st))
+            # idiom: prologue delegated to a reset method of the same class: self.reset() / self._reset()
+            for st in fn.body:
+                if isinstance(st, ast.Expr) and isinstance(st.value, ast.Call) and \
+                        isinstance(st.value.func, ast.Attribute) and _key_is(st.value.func.value, 'self') and \
+                        not st.value.args and (line is None or st.lineno < line):
+                    o2, helper = ci.find_method(st.value.func.attr)
+                    if helper is not None and helper is not fn:
+                        for attr, kind, node in writes_in(helper):
+                            if kind == 'assign' and not any(common.is_self_attr(x, attr) for x in ast.walk(node.value)):
+                                resets.setdefault(attr, []).append(('assign', o2, node))
+                            elif kind == 'call:clear':
+                                resets.setdefault(attr, []).append(('clear', o2, node))
             for attr, kind, node in writes_in(fn):
                 if line is not None and node.lineno >= line:
                     # writes at/after the dispatch line are not a prologue reset unless the same statement
